@@ -326,6 +326,19 @@ pub fn judge(w: &World, run: &Run, focus: Option<&str>) -> (Verdict, RunInfo) {
 
     let mut m = Model::new(w, &run.history);
     let mut built = m.build();
+    if m.cycle_refusals > 0 && (!m.r2.is_empty() || !m.history_fully_explained()) && !m.truncated {
+        // The run has refused recursive includes and the model does not explain it. A front end
+        // may look at a file before it refuses it (C18 says nothing about reads that have no
+        // effect): build the model once more under that policy and keep it if it explains
+        // every call.
+        let mut cand = Model::new(w, &run.history);
+        cand.read_before_refusal = true;
+        let b = cand.build();
+        if cand.r2.is_empty() && cand.history_fully_explained() && !cand.truncated {
+            m = cand;
+            built = b;
+        }
+    }
     if m.ambiguous_sites > 0 {
         // try the alternative attributions of reads of unresolvable paths and keep the first
         // explanation that is consistent with the history and with the tree of parsed sources
@@ -362,6 +375,7 @@ pub fn judge(w: &World, run: &Run, focus: Option<&str>) -> (Verdict, RunInfo) {
         if !consistent(&m, run) {
             for mask in 1u32..(1 << k) {
                 let mut cand = Model::new(w, &run.history);
+                cand.read_before_refusal = m.read_before_refusal;
                 cand.choices = (0..k).map(|b| mask & (1 << b) == 0).collect();
                 let b = cand.build();
                 if consistent(&cand, run) {
@@ -1327,7 +1341,8 @@ pub fn judge(w: &World, run: &Run, focus: Option<&str>) -> (Verdict, RunInfo) {
                 let n = lists[k]
                     .diags
                     .iter()
-                    .filter(|d| d.kind == "IncludeNotInGlobalScopeError" && d.start == *s && d.end == *e)
+                    // located on the statement or on a part of it (its path literal, say)
+                    .filter(|d| d.kind == "IncludeNotInGlobalScopeError" && d.start >= *s && d.end <= *e)
                     .count();
                 if n != 1 {
                     soft!(info, focus, viol(
